@@ -16,6 +16,7 @@ import (
 	"path/filepath"
 	"runtime"
 	"sync"
+	"sync/atomic"
 	"syscall"
 	"time"
 
@@ -90,6 +91,7 @@ type object struct {
 	peer   int      // raw peer descriptor (-1 if none / closed)
 	port   int      // bound port (lst, pkt)
 	closed bool
+	unborn bool // placeholder of an object that an Open command creates later
 	tok    byte
 	path   string
 	inR    int // op id in flight per direction (driver's own ledger), 0 = none
@@ -116,8 +118,10 @@ type drv struct {
 	objs   []*object
 	timers []*sonic.Timer
 	tfires []int
-	tsn    int // number of Schedule* calls made in this scenario
-	tdue   []bool // once-schedule outstanding (driver's ledger)
+	tsn    int          // number of Schedule* calls made in this scenario
+	freed  int          // descriptor number released by the last Close of an object (0: none)
+	lateLn net.Listener // scenarios with objects opened later: the listener their connections dial
+	tdue   []bool       // once-schedule outstanding (driver's ledger)
 	ops    map[int]*opinfo
 	posted map[int]bool
 	depth  int
@@ -174,12 +178,20 @@ func (d *drv) waitFd(fd int, events int16) bool {
 
 var mcpPort int
 
-func tcpPair(ioc *sonic.IO) (sonic.Conn, int, error) {
-	ln, err := net.Listen("tcp", "127.0.0.1:0")
-	if err != nil {
-		return nil, -1, err
+// tcpPair: with ln == nil a listener is made for the occasion; an object opened in the middle of a
+// scenario dials a listener made at Reset instead, so that the first descriptor created is the
+// connection's own (it then gets the lowest free number, e.g. the one a handler has just closed).
+var reusedTotal int64 // Opens that got the descriptor number of a closed object
+
+func tcpPair(ioc *sonic.IO, ln net.Listener) (sonic.Conn, int, error) {
+	if ln == nil {
+		var err error
+		ln, err = net.Listen("tcp", "127.0.0.1:0")
+		if err != nil {
+			return nil, -1, err
+		}
+		defer ln.Close()
 	}
-	defer ln.Close()
 	c, err := sonic.Dial(ioc, "tcp", ln.Addr().String(), sonicopts.Nonblocking(true), sonicopts.NoDelay(true))
 	if err != nil {
 		return nil, -1, err
@@ -207,7 +219,7 @@ func (d *drv) mk(kind string, idx int) (*object, error) {
 	o := &object{kind: kind, peer: -1}
 	switch kind {
 	case "sock":
-		c, p, err := tcpPair(d.ioc)
+		c, p, err := tcpPair(d.ioc, d.lateLn)
 		if err != nil {
 			return nil, err
 		}
@@ -513,6 +525,7 @@ func (d *drv) exec(c Ev) {
 			err = ob.mcp.Close()
 		}
 		ob.closed = true
+		d.freed = ob.fd
 		d.reserve(ob)
 		cls, note := errClass(err)
 		d.emit(Ev{Ev: "CloseE", O: c.O, Err: cls, Note: note})
@@ -531,6 +544,42 @@ func (d *drv) exec(c Ev) {
 		}
 		cls, note := errClass(err)
 		d.emit(Ev{Ev: "PostE", H: h, Err: cls, Note: note})
+	case "Open":
+		ob := d.objs[c.O-1]
+		if !ob.unborn {
+			d.skipped++
+			return
+		}
+		// The kernel hands out the lowest free number. Numbers below the one freed by the last Close may
+		// be free as well (helpers of earlier set-ups); they are occupied for the moment, so that the new
+		// object gets the number of the object that was just closed - what happens to a program that
+		// holds no other descriptors.
+		var fill []int
+		for d.freed > 0 {
+			fd, err := syscall.Open("/dev/null", syscall.O_RDONLY|syscall.O_CLOEXEC, 0)
+			if err != nil {
+				break
+			}
+			if fd < d.freed {
+				fill = append(fill, fd)
+				continue
+			}
+			syscall.Close(fd)
+			break
+		}
+		nb, err := d.mk(ob.kind, c.O-1)
+		for _, fd := range fill {
+			syscall.Close(fd)
+		}
+		if err != nil {
+			panic(fmt.Errorf("open %s: %w", ob.kind, err))
+		}
+		if nb.fd == d.freed {
+			atomic.AddInt64(&reusedTotal, 1)
+		}
+		d.freed = 0
+		d.objs[c.O-1] = nb
+		d.emit(Ev{Ev: "Open", O: c.O, N: nb.fd})
 	case "TSchedB":
 		t := c.T
 		tm := d.timers[t-1]
@@ -807,7 +856,7 @@ func parse(h []Ev) (map[string][]Ev, Ev) {
 			if len(stack) > 1 {
 				stack = stack[:len(stack)-1]
 			}
-		case "Call", "CancelB", "CloseB", "PostE", "TSchedB", "TCancelE", "TCloseE", "Env", "PollB", "WaitSig":
+		case "Call", "CancelB", "CloseB", "PostE", "TSchedB", "TCancelE", "TCloseE", "Env", "PollB", "WaitSig", "Open":
 			if e.Note != "drain" { // the model's drain phase is not replayed: the driver has its own
 				script[cur] = append(script[cur], e)
 			}
@@ -890,6 +939,11 @@ func (d *drv) cleanup() {
 			_ = ob.nc.Close()
 		}
 		if ob.peer >= 0 {
+			if ob.kind == "sock" || ob.kind == "adp" {
+				// abortive close: no TIME_WAIT entries (tens of thousands of scenarios would use up the
+				// ephemeral ports)
+				_ = syscall.SetsockoptLinger(ob.peer, syscall.SOL_SOCKET, syscall.SO_LINGER, &syscall.Linger{Onoff: 1, Linger: 0})
+			}
 			syscall.Close(ob.peer)
 		}
 		if ob.path != "" {
@@ -913,20 +967,37 @@ func (d *drv) scenario(h []Ev) (err error) {
 	d.i, d.depth, d.nontrivial = 0, 0, false
 	d.ops, d.posted = map[int]*opinfo{}, map[int]bool{}
 	d.objs, d.timers, d.tfires, d.tdue, d.bufs = nil, nil, nil, nil, nil
-	d.tsn = 0
+	d.tsn, d.freed = 0, 0
 	d.sink = -1
 	d.ioc, err = sonic.NewIO()
 	if err != nil {
 		return err
 	}
 	defer d.cleanup()
+	d.lateLn = nil
+	var lateLn net.Listener
+	if reset.D != 0 {
+		// bit k of Reset.d: object k+1 does not exist yet, an Open command creates it
+		ln, err := net.Listen("tcp", "127.0.0.1:0")
+		if err != nil {
+			return err
+		}
+		defer ln.Close()
+		defer func() { d.lateLn = nil }()
+		lateLn = ln
+	}
 	for k, kind := range reset.Kinds {
+		if reset.D&(1<<uint(k)) != 0 {
+			d.objs = append(d.objs, &object{kind: kind, peer: -1, closed: true, unborn: true})
+			continue
+		}
 		ob, err := d.mk(kind, k)
 		if err != nil {
 			return fmt.Errorf("mk %s: %w", kind, err)
 		}
 		d.objs = append(d.objs, ob)
 	}
+	d.lateLn = lateLn // objects made above used listeners of their own; Open dials this one
 	for k := 0; k < reset.N; k++ {
 		t, err := sonic.NewTimer(d.ioc)
 		if err != nil {
@@ -1075,7 +1146,7 @@ func Run(a tr.Args) error {
 		return err
 	}
 	if ents, err := os.ReadDir("/proc/self/fd"); err == nil {
-		sum.Notes = map[string]any{"open_descriptors_at_end": len(ents), "notes": sum.Notes}
+		sum.Notes = map[string]any{"open_descriptors_at_end": len(ents), "notes": sum.Notes, "opens_reusing_a_closed_number": atomic.LoadInt64(&reusedTotal)}
 	}
 	sum.Print()
 	return nil
